@@ -766,9 +766,10 @@ def op_traverse(w, ins):
     if d != a.tt:
         w.fail('wrong_result', 'Shannon re-composition from var/low/high/negated differs from the reference', ['C18'])
     keep = ins.get('keepmask', 0)
-    if keep & 1:
+    # (the same object handed out twice is one handle, not two)
+    if keep & 1 and not any(s_.ref is lo for s_ in w.slots):
         w.add_slot(m, lo, w.den(m, lo))
-    if keep & 2:
+    if keep & 2 and not any(s_.ref is hi for s_ in w.slots):
         w.add_slot(m, hi, w.den(m, hi))
     del lo, hi
     w.touch()
